@@ -679,8 +679,18 @@ func (u *Upstream) readAckLoop(ctx context.Context) {
 	}()
 
 	for ack := range u.ackOrDone(ctx) {
-		u.aliasCh <- ack.DataIDAliases
-		u.resCh <- ack.Results
+		// (the alias loop leaves when the run ends: a hand-over that nobody takes any more must not park this loop,
+		// the run - and with it the resume of the stream - waits for it)
+		select {
+		case u.aliasCh <- ack.DataIDAliases:
+		case <-ctx.Done():
+			return
+		}
+		select {
+		case u.resCh <- ack.Results:
+		case <-ctx.Done():
+			return
+		}
 	}
 }
 
